@@ -31,6 +31,7 @@ class Intervals:
                                           for o in i.ops if o.is_const and o.is_int
                                           for x in (o.uval - 1, o.uval, o.uval + 1) if 0 <= x < (1 << 63)})
         self.env = {}             # block -> {id(value): interval} overlay on entry
+        self._oe = {}
         self.val = {}             # id(value) -> interval (definition-based, flow-insensitive join)
         self.reach = set()
         self._run()
@@ -88,8 +89,38 @@ class Intervals:
         return TOP
 
     # ---- refinement of an overlay by a branch outcome
-    def _refine(self, ov, cond, outcome):
+    def _refine(self, ov, cond, outcome, depth=0):
         ov = dict(ov)
+        if cond.is_inst and cond.op == "phi" and cond.ty == "i1" and depth < 3:
+            # a short-circuit condition: which incoming edges can have produced this outcome, and what held on them
+            cands = []
+            for val, pred in zip(cond.ops, cond.x["inc"]):
+                if val.is_const and val.is_int:
+                    if bool(val.uval) != outcome:
+                        continue
+                    e = dict(self._oe.get((pred, cond.bb), {}))
+                else:
+                    e = self._refine(dict(self._oe.get((pred, cond.bb), {})), val, outcome, depth + 1)
+                if e.get("unreachable"):
+                    continue
+                cands.append(e)
+            if not cands:
+                ov["unreachable"] = True
+                return ov
+            keys = set(cands[0])
+            for e in cands[1:]:
+                keys &= set(e)
+            for k in keys:
+                if k == "unreachable":
+                    continue
+                acc = None
+                for e in cands:
+                    acc = _join(acc, e[k])
+                cur = ov.get(k)
+                m = _meet(cur, acc) if cur is not None else acc
+                if m is not None:
+                    ov[k] = m
+            return ov
         if not (cond.is_inst and cond.op == "icmp"):
             return ov
         a, b = cond.ops
@@ -164,6 +195,7 @@ class Intervals:
         self.reach = {entry}
         preds = {b: [p for p in f.blocks if b in p.succs] for b in f.blocks}
         out_env = {}
+        self._oe = out_env
         rounds = 0
         changed = True
         while changed and rounds < 60:
